@@ -33,6 +33,8 @@ type Cluster struct {
 	next    uint64
 	Nodes   []*Node
 	ShardID uint64
+	Base    uint64 // index before the first log entry
+	Eager   []bool // Eager[i]: node i applies every entry at commit time
 }
 
 // Node is one replica with its applied position (count of log entries consumed).
@@ -42,7 +44,6 @@ type Node struct {
 	Inst    *fsmx.Inst
 	Pos     int // log entries consumed (applied or skipped)
 	Results map[uint64]sm.Result
-	T       *sched.T // set while a scheduled thread is calling through this node
 }
 
 func NewCluster(shard uint64, insts ...*fsmx.Inst) *Cluster {
@@ -53,6 +54,14 @@ func NewCluster(shard uint64, insts ...*fsmx.Inst) *Cluster {
 	return c
 }
 
+// NewClusterAt is NewCluster with the log starting after index base.
+func NewClusterAt(shard, base uint64, insts ...*fsmx.Inst) *Cluster {
+	c := NewCluster(shard, insts...)
+	c.next = base
+	c.Base = base
+	return c
+}
+
 // Commit returns the commit index (= last log index).
 func (c *Cluster) Commit() uint64 { return c.next }
 
@@ -60,13 +69,20 @@ func (c *Cluster) Commit() uint64 { return c.next }
 func (c *Cluster) Append(cmd []byte) uint64 {
 	c.next++
 	c.Log = append(c.Log, LogEntry{Index: c.next, Cmd: cmd})
+	for i, n := range c.Nodes {
+		if i < len(c.Eager) && c.Eager[i] {
+			if err := n.CatchUp(); err != nil {
+				panic(err)
+			}
+		}
+	}
 	return c.next
 }
 
 // Applied returns the index of the last entry the node consumed.
 func (n *Node) Applied() uint64 {
 	if n.Pos == 0 {
-		return 0
+		return n.C.Base
 	}
 	return n.C.Log[n.Pos-1].Index
 }
@@ -111,18 +127,38 @@ var ErrCanceled = errors.New("simraft: context canceled")
 
 // Host is the raftHandler view of one node. Without a scheduler thread (T == nil) every call is
 // synchronous: proposals and linearizable reads first catch the node up.
-type Host struct{ N *Node }
+type Host struct {
+	N    *Node
+	T    *sched.T // the calling client's scheduler handle (nil = synchronous mode)
+	last *uint64
+}
+
+// NewHost returns the view of node n for one client thread.
+func NewHost(n *Node, t *sched.T) Host { return Host{N: n, T: t, last: new(uint64)} }
+
+// LastIndex is the log index of the last proposal made through this host (0 if none), and resets it.
+func (h Host) LastIndex() uint64 {
+	if h.last == nil {
+		return 0
+	}
+	v := *h.last
+	*h.last = 0
+	return v
+}
 
 func (h Host) GetNoOPSession(id uint64) *client.Session { return &client.Session{ShardID: id} }
 
 func (h Host) SyncPropose(ctx context.Context, _ *client.Session, cmd []byte) (sm.Result, error) {
 	n := h.N
-	if n.T != nil {
-		n.T.Point(fmt.Sprintf("n%d.append", n.ID))
+	if h.T != nil {
+		h.T.Point(fmt.Sprintf("n%d.append", n.ID))
 	}
 	idx := n.C.Append(append([]byte(nil), cmd...))
-	if n.T != nil {
-		n.T.Await(fmt.Sprintf("n%d.wait-applied(%d)", n.ID, idx), func() bool { return n.Applied() >= idx })
+	if h.last != nil {
+		*h.last = idx
+	}
+	if h.T != nil {
+		h.T.Await(fmt.Sprintf("n%d.wait-applied(%d)", n.ID, idx-n.C.Base), func() bool { return n.Applied() >= idx })
 	} else if err := n.CatchUp(); err != nil {
 		return sm.Result{}, err
 	}
@@ -131,13 +167,13 @@ func (h Host) SyncPropose(ctx context.Context, _ *client.Session, cmd []byte) (s
 
 func (h Host) SyncRead(ctx context.Context, _ uint64, q interface{}) (interface{}, error) {
 	n := h.N
-	if n.T != nil {
-		n.T.Point(fmt.Sprintf("n%d.readindex", n.ID))
+	if h.T != nil {
+		h.T.Point(fmt.Sprintf("n%d.readindex", n.ID))
 	}
 	ri := n.C.Commit()
-	if n.T != nil {
-		n.T.Await(fmt.Sprintf("n%d.wait-caughtup(%d)", n.ID, ri), func() bool { return n.Applied() >= ri })
-		n.T.Point(fmt.Sprintf("n%d.lookup", n.ID))
+	if h.T != nil {
+		h.T.Await(fmt.Sprintf("n%d.wait-caughtup(%d)", n.ID, ri-n.C.Base), func() bool { return n.Applied() >= ri })
+		h.T.Point(fmt.Sprintf("n%d.lookup", n.ID))
 	} else if err := n.CatchUp(); err != nil {
 		return nil, err
 	}
@@ -146,8 +182,8 @@ func (h Host) SyncRead(ctx context.Context, _ uint64, q interface{}) (interface{
 
 func (h Host) StaleRead(_ uint64, q interface{}) (interface{}, error) {
 	n := h.N
-	if n.T != nil {
-		n.T.Point(fmt.Sprintf("n%d.stale-lookup", n.ID))
+	if h.T != nil {
+		h.T.Point(fmt.Sprintf("n%d.stale-lookup", n.ID))
 	}
 	return n.Inst.Lookup(q)
 }
